@@ -815,6 +815,9 @@ def run(ctx):
         from .common import share
         share(ctx, "C07", ("R07.6", "R07.9"), "R06.10", "forwarding / width obligations shared with C07", 4)
     _noexcept_elements(ctx)
+    ctx.rule("R06.12", "no catch handler in fixed_vector lets an exception vanish: an operation that cannot be satisfied, or an element whose copy / move throws, is reported to the caller")
+    from .common import rule_handlers
+    rule_handlers(ctx, "R06.12", lambda g: g.file.endswith("lang/fixed_vector.hpp"), ("nitro::except::exception",), "the refusal has to reach the caller", minimum=40)
     ctx.assume("element-type behaviour (throwing copies/moves) is covered only through R06.5/R06.6's ordering argument")
 
 
